@@ -169,7 +169,7 @@ def gen_programs(ctx):
         for a, b in itertools.combinations_with_replacement([0, 1, 3, 5, 7, 8, 11, 12], 2):
             P.append(fmt_prog("cache", pre, [["sweep"], [T[a]()], [T[b]()]], ["cload:1", "load:1", "load:2", "len"]))
     # 5. random programs: 2-3 threads x 1-3 operations on 1-2 keys
-    n = 3000 if thorough else 500
+    n = 6000 if thorough else 500
     for i in range(n):
         kind = "cache" if rng.random() < 0.4 else "map"
         fr = Fresh(20)
@@ -192,7 +192,7 @@ def gen_programs(ctx):
 
 def stress_lines(ctx):
     thorough = ctx.tier == "thorough"
-    r = 3000 if thorough else 300
+    r = 6000 if thorough else 300
     return ["stress map %d %d 6 1 1" % (ctx.seed, r), "stress map %d %d 4 2 2" % (ctx.seed + 1, r),
             "stress map %d %d 8 1 2" % (ctx.seed + 2, r // 2), "stress cache %d %d 5 1 1" % (ctx.seed + 3, r),
             "stress cache %d %d 3 2 2" % (ctx.seed + 4, r)]
